@@ -204,6 +204,52 @@ func c07R1(c *Ctx) {
 				fs.add("same-grant", "the time, type and command tests that admit the action are not all made on the same grant element", p.Exit(), p)
 			}
 		}
+		// the element that is deleted is the element that matched: slices.Delete(S, i, i+1) with S the
+		// very slice the matched element was read from (sess.authorizedActions) at index i
+		p.ForEach(func(bi int, ins ssa.Instruction) bool {
+			call, ok := ins.(*ssa.Call)
+			if !ok {
+				return true
+			}
+			f := staticCallee(&call.Call)
+			if f == nil {
+				return true
+			}
+			o := f
+			if f.Origin() != nil {
+				o = f.Origin()
+			}
+			if o.Pkg == nil || o.Pkg.Pkg.Path() != "slices" || o.Name() != "Delete" || len(call.Call.Args) != 3 {
+				return true
+			}
+			if !endsInField(call.Call.Args[0], fActions, false) {
+				return true
+			}
+			idx := p.Resolve(call.Call.Args[1], bi)
+			for _, r := range elemRoots {
+				// the element root is a load of &X[i] (range copy) or the IndexAddr itself
+				var ia *ssa.IndexAddr
+				switch x := r.(type) {
+				case *ssa.IndexAddr:
+					ia = x
+				case *ssa.UnOp:
+					ia, _ = x.X.(*ssa.IndexAddr)
+				case *ssa.Alloc:
+					if sv := singleStore(x); sv != nil {
+						if u, ok := sv.(*ssa.UnOp); ok {
+							ia, _ = u.X.(*ssa.IndexAddr)
+						}
+					}
+				}
+				if ia == nil {
+					continue
+				}
+				if !endsInField(ia.X, fActions, false) || p.Resolve(ia.Index, bi) != idx {
+					fs.add("same-grant", "the grant removed from sess.authorizedActions is not the element that matched (the matched element was read from another slice or at another index): the used grant stays usable and an unrelated one disappears", ins, p)
+				}
+			}
+			return true
+		})
 		// single use: a store into sess.authorizedActions of a slice that no longer contains the element
 		deleted := false
 		p.ForEach(func(i int, ins ssa.Instruction) bool {
